@@ -32,6 +32,10 @@ func VerifC18DutyDB() {
 	vrt.Assert("reads succeed", e1 == nil && e2 == nil && e3 == nil)
 	vrt.Assert("mutating the stored input afterwards does not change what is served", vSame(r1, a))
 	vrt.Assert("a result does not share memory with the caller's input", !vrt.SameObject(r1.Source, in.Data.Source) && !vrt.SameObject(r1.Target, in.Data.Target))
+	// the committee-0 alias entry is a second insertion site: it must be as private as the first
+	vrt.Assert("mutating the stored input afterwards does not change what the committee-0 alias serves",
+		r3 != nil && r3.Source != nil && r3.Target != nil && uint64(r3.Source.Epoch) == uint64(a.src) && uint64(r3.Target.Epoch) == uint64(a.tgt) && r3.BeaconBlockRoot[0] == a.head)
+	vrt.Assert("the alias result does not share memory with the caller's input", !vrt.SameObject(r3.Source, in.Data.Source) && !vrt.SameObject(r3.Target, in.Data.Target))
 	vrt.Reach("reads done")
 	vrt.AssertKF("two readers never receive the same mutable memory (attestation data)",
 		!vrt.SameObject(r1, r2) && !vrt.SameObject(r1.Source, r2.Source) && !vrt.SameObject(r1, r3), "C18-a", true)
